@@ -11,7 +11,7 @@ import ast
 
 from ..cfg import CFG, facts_at
 from ..core import AnalysisError, FuncNode, call_name, calls_in, const_str, last_attr, src
-from ..filerules import FILE, missing_path_obligations
+from ..filerules import FILE, missing_path_obligations, walk_join_obligations
 
 EXPLANATION = (
     "C04.1 in Scheduler._get_cache every `return <result>, True, ...` is inside the CSE arm (this execution's own result) or dominated by the "
@@ -123,6 +123,10 @@ def run(ctx):
     assign = [n for n in ast.walk(ex) if isinstance(n, ast.Assign) and isinstance(n.value, ast.Call) and call_name(n.value) == "self._get_cache"]
     ok = ok and len(assign) == 1 and isinstance(assign[0].targets[0], ast.Tuple) and src(assign[0].targets[0].elts[1]).endswith(".was_cached")
     r4.check(ok, f"{sm.rel}:Scheduler._exec_job_main_thread:was_cached", "job.was_cached is not the is_cached component returned by _get_cache", sm.rel, ex.lineno)
+
+    rw = ctx.rule("C04.6", "directory member hashes address each member at its own path (os.walk join idiom)", floor=1)
+    for construct, ok, msg, rel, line in walk_join_obligations(repo):
+        rw.check(ok, construct, msg, rel, line)
 
 
 def _arm(facts) -> str:
